@@ -127,41 +127,91 @@ BENIGN = [('reformat (ast.unparse round trip: comments, quoting, line numbers ch
 BENIGN_EXTRA = [('rename-locals (every plain local variable gets a new name)', t_rename_locals)]
 
 
+BENIGN_DIR = os.path.join(VERIF, 'benign')
+
+
+def _patch_job(args):
+  """worker: apply one stored patch to a scratch copy of the tree and run the property's rules on it."""
+  pid, root, patch = args
+  import importlib
+  mod = importlib.import_module('sa.props.%s' % pid.lower())
+  tmp = _scratch_copy(root)
+  try:
+    p = subprocess.run(['git', 'apply', '--whitespace=nowarn', '--exclude=*/tests/*', patch], cwd=tmp, stdout=subprocess.PIPE,
+                       stderr=subprocess.STDOUT)
+    if p.returncode != 0:
+      return dict(applied=False)
+    try:
+      _c, unlisted, errors = _run_rules(pid, mod, root=tmp)
+    except Exception as e:
+      unlisted, errors = [], ['%s: %s' % (type(e).__name__, e)]
+    return dict(applied=True, errors=[str(e) for e in errors][:5],
+                unlisted=[dict(rule=v.rule, key=v.key, construct=v.construct[:160], loc=v.loc) for v in unlisted])
+  finally:
+    shutil.rmtree(tmp, ignore_errors=True)
+
+
+def benign_refactorings():
+  out = []
+  for d in sorted(glob.glob(os.path.join(BENIGN_DIR, '*'))):
+    patch = os.path.join(d, 'patch.diff')
+    if os.path.isfile(patch):
+      out.append((os.path.basename(d), patch))
+  return out
+
+
 def run(pid, mod, root=None):
+  from concurrent.futures import ProcessPoolExecutor
   root = root or repo_root()
   result = dict(seeded_total=0, seeded_killed=0, seeded_not_applicable=0, benign_total=0, benign_silent=0,
+                refactorings_total=0, refactorings_silent=0, refactorings_not_applicable=0,
                 variants=[], failures=[], informational=[])
   base_check, base_unlisted, base_errors = _run_rules(pid, mod, root=root)
   consulted = sorted({k.split(':')[0] for k in base_check.functions_analysed if ':' in k})
   repo = base_check.repo
-  # ---- seeded
-  for name, patch, expected_rules in seeded_variants(pid):
+  base_keys = {v.key for v in base_unlisted}
+  seeded = seeded_variants(pid)
+  refs = benign_refactorings()
+  jobs = [(pid, root, patch) for (_n, patch, _e) in seeded] + [(pid, root, patch) for (_n, patch) in refs]
+  outs = []
+  if jobs:
+    workers = min(16, len(jobs), (os.cpu_count() or 2))
+    with ProcessPoolExecutor(workers) as ex:
+      outs = list(ex.map(_patch_job, jobs))
+  # ---- seeded: each must be reported by one of the expected rules
+  for (name, patch, expected_rules), o in zip(seeded, outs[:len(seeded)]):
     result['seeded_total'] += 1
-    tmp = _scratch_copy(root)
-    try:
-      p = subprocess.run(['git', 'apply', '--whitespace=nowarn', patch], cwd=tmp, stdout=subprocess.PIPE, stderr=subprocess.STDOUT)
-      if p.returncode != 0:
-        result['seeded_not_applicable'] += 1
-        result['variants'].append(dict(kind='seeded', name=name, outcome='not-applicable (patch does not apply to the current tree)'))
+    if not o.get('applied'):
+      result['seeded_not_applicable'] += 1
+      result['variants'].append(dict(kind='seeded', name=name, outcome='not-applicable (patch does not apply to the current tree)'))
+      continue
+    new = [v for v in o['unlisted'] if v['key'] not in base_keys]
+    hit = sorted({v['rule'] for v in new})
+    if new and (not expected_rules or set(hit) & set(expected_rules)):
+      result['seeded_killed'] += 1
+      result['variants'].append(dict(kind='seeded', name=name, outcome='killed', rules=hit,
+                                     construct=new[0]['construct'][:120], location=new[0]['loc']))
+    else:
+      result['variants'].append(dict(kind='seeded', name=name, outcome='SURVIVED', rules=hit, errors=o.get('errors', [])[:3]))
+      result['failures'].append('seeded change %s is not reported by %s (expected one of %s, got %s)'
+                                % (name, pid, expected_rules, hit))
+  # ---- stored behaviour-preserving refactorings (every property is checked against all of them): must stay silent
+  if not base_unlisted and not base_errors:
+    for (name, patch), o in zip(refs, outs[len(seeded):]):
+      if not o.get('applied'):
+        result['refactorings_not_applicable'] += 1
+        result['variants'].append(dict(kind='refactoring', name=name, outcome='not-applicable (patch does not apply to the current tree)'))
         continue
-      try:
-        _c, unlisted, errors = _run_rules(pid, mod, root=tmp)
-      except Exception as e:
-        unlisted, errors = [], ['%s: %s' % (type(e).__name__, e)]
-      base_keys = {v.key for v in base_unlisted}
-      new = [v for v in unlisted if v.key not in base_keys]
-      hit = sorted({v.rule for v in new})
-      if new and (not expected_rules or set(hit) & set(expected_rules)):
-        result['seeded_killed'] += 1
-        result['variants'].append(dict(kind='seeded', name=name, outcome='killed', rules=hit,
-                                       construct=new[0].construct[:120], location=new[0].loc))
+      result['refactorings_total'] += 1
+      if not o['unlisted'] and not o['errors']:
+        result['refactorings_silent'] += 1
+        result['variants'].append(dict(kind='refactoring', name=name, outcome='silent'))
       else:
-        result['variants'].append(dict(kind='seeded', name=name, outcome='SURVIVED', rules=hit, errors=errors[:3]))
-        result['failures'].append('seeded change %s is not reported by %s (expected one of %s, got %s)'
-                                  % (name, pid, expected_rules, hit))
-    finally:
-      shutil.rmtree(tmp, ignore_errors=True)
-  # ---- benign
+        result['variants'].append(dict(kind='refactoring', name=name, outcome='NOT SILENT',
+                                       violations=[v['key'][:160] for v in o['unlisted']][:3], errors=o['errors'][:3]))
+        result['failures'].append('behaviour-preserving refactoring %s is not silent: %s'
+                                  % (name, [v['rule'] for v in o['unlisted']][:3] + o['errors'][:2]))
+  # ---- generated benign overlays (re-formatting, shifted lines, renamed locals)
   if not base_unlisted and not base_errors:
     for label, fn in BENIGN + BENIGN_EXTRA:
       overlay = {}
